@@ -70,8 +70,8 @@ def group_runs(g, tier):
             W('ovl(mem,mem)', 'edges', frac=0.05 if q else 1.0, split=True),
             # the non-transfer operations (a quarter of the edges; transfers dominate a uniform sample) on states whose
             # entries all live in lower layers: wrong-typed parents and targets served from below
-            W('ovl(mem,mem)', 'edges', frac=0.12 if q else 1.0, split=True, lower_only=True, ops='create_dir,create_file,append_file,remove_file,remove_dir,create_dir_all,remove_dir_all,set_time'),
-            W('ovl(mem,mem,mem)', 'edges', lts='deep', frac=0.12 if q else 1.0, split=True, lower_only=True, ops='create_dir,create_file,append_file,remove_file,remove_dir,create_dir_all,remove_dir_all'),
+            W('ovl(mem,mem)', 'edges', frac=0.07 if q else 1.0, split=True, lower_only=True, ops='create_dir,create_file,append_file,remove_file,remove_dir,create_dir_all,remove_dir_all,set_time'),
+            W('ovl(mem,mem,mem)', 'edges', lts='deep', frac=0.08 if q else 1.0, split=True, lower_only=True, ops='create_dir,create_file,append_file,remove_file,remove_dir,create_dir_all,remove_dir_all'),
             W('ovl(mem,mem)', 'random', walks=30 if q else 2000, length=40, split=True),
             W('ovl(mem)', 'random', walks=8 if q else 300, length=40),
             W('ovl(mem,mem,mem)', 'random', walks=15 if q else 1000, length=40, split=True),
